@@ -91,4 +91,10 @@ META = {
         "level_text": "Sequences of datagrams from two peers against randomly configured local devices; after every datagram all connections are drained and every reply/result is checked for reference, destination, source (local device address + addressed entity/feature), connection, and the number of responses prescribed by the classifier rules; reads of announced readable functions must return the stored data; acceptance is checked for consistency with the observable effect rather than predicted.",
         "level_note": "Trusted: canonical JSON equality for payloads; the harness's notion of well-formed datagram. Asynchronous approval outcomes are C12's subject (no approval callbacks here).",
     },
+    "C07": {
+        "technique": "model-based property testing (rapid state machine) against a harness-side configuration model; exhaustive enumeration of GetOrAddFeature interleavings over a build-tag yield point; stress",
+        "design_ref": "DESIGN.md §4 C07, Appendix A.4",
+        "level_text": "Generated configuration histories are checked through every discovery reply and every entity notification on every connection against a model of the local tree; uniqueness of feature numbers over the whole history; all merge orders of 2-3 concurrent GetOrAddFeature calls are enumerated around the lookup/create window.",
+        "level_note": "Trusted: sched engine; set comparison of announced operations. Concurrent AddFeature/AddFunctionType races are C17's subject.",
+    },
 }
